@@ -5,12 +5,21 @@ under the deterministic schedulers of drivers/sched_simple.py.  Every run is pri
 Gallina `c19case` (scenario, schedule, observed label trace, final status/buffer/flags); inside
 Coq the model of coq/Simple/SimpleClient.v is run on the same scenario and schedule
 (correspondence, bit 1) and the property checker of coq/Check/C19Check.v is evaluated on what
-the implementation did (bit 2, higher bits = clause)."""
+the implementation did (bit 2, higher bits = clause).
+
+Second class of cases (`c19tcase`, "transport"): the simple clients over the REAL Client / AsyncClient
+over a fake engine.io transport (drivers/sched_simple_eio.py).  The producer script is a history of
+what the server / transport does (events, loss, failed / refused / successful reconnection attempts,
+CLOSE, DISCONNECT); Coq translates it with `dispatch` (coq/Simple/SimpleTransport.v) into the handler
+script the model runs (correspondence) and judges that what receive() returned is exactly what the
+server sent (clauses 1024 / 2048), besides all the clauses above."""
+import functools
 import os
 
 from vt import coqio
 from vt.coqio import clist, cbool
 from drivers import sched_simple as S
+from drivers import sched_simple_eio as X
 
 IMPORTS = 'From VT Require Import Check.C19Check.'
 DEFS = 'Local Open Scope nat_scope.\nLocal Open Scope string_scope.'
@@ -29,6 +38,16 @@ SIGNATURES = [
     (256, 'unexpected-exception', 'a call ended in an exception other than TimeoutError / DisconnectedError'),
     (512, 'blocked-while-event-buffered',
      'receive() is blocked for ever although a completely handed-off event is in the buffer (event held back)'),
+    (1024, 'received-differs-from-server-sent',
+     'the events returned by receive() followed by the buffered ones are not the events the server sent '
+     '(each once, in order, nothing else)'),
+    (4096, 'held-back-in-connected-wait-during-outage',
+     'receive(timeout=None) is blocked in connected_event.wait() (not in input_event.wait()) while the underlying '
+     'connection is down but not ended for good, with a completely handed-off event in input_buffer (the event '
+     'arrived and the transport dropped between receive()\'s emptiness test and its connected wait; threads only)'),
+    (2048, 'lifecycle-notification-received',
+     'receive() returned (or the buffer holds) a lifecycle notification of the underlying Client '
+     '(connect / connect_error / disconnect / __disconnect_final) that the server never sent as an event'),
 ]
 
 # ---------------------------------------------------------------------------------------
@@ -117,6 +136,111 @@ def case_term(variant, atomic, P, C, r):
         clist([clist([lbl_term(l) for l in step]) for step in r.trace]),
         status_term(r.status), cbool(r.pdone), buf,
         cbool(r.flags[0]), cbool(r.flags[1]), cbool(r.flags[2]), cbool(r.flags[3]))
+
+
+# ---------------------------------------------------------------------------------------
+# transport-level scenarios: the real Client / AsyncClient below the simple client
+# ---------------------------------------------------------------------------------------
+TL, TC, TD = ('TLose',), ('TClose',), ('TDisc',)
+AF, AR, AK = ('TAttempt', 'fail'), ('TAttempt', 'refused'), ('TAttempt', 'ok')
+
+
+def TE(i):
+    return ('TEvent', 'e%d' % i, [i])
+
+
+def top_term(op):
+    k = op[0]
+    if k == 'TEvent':
+        return '(tev "%s" %d)' % (op[1], op[2][0])
+    if k == 'TAttempt':
+        return '(TAttempt %s)' % {'fail': 'AFail', 'refused': 'ARefused', 'ok': 'AOk'}[op[1]]
+    return {'TLose': 'TLose', 'TClose': 'TClose', 'TDisc': 'TDisc'}[k]
+
+
+def tcase_term(variant, atomic, params, T, C, r):
+    fixed, recheck = variant
+    try:
+        buf = clist([item_term(x) for x in r.buf])
+    except TypeError:
+        buf = '[PObj 0%N]'
+    return '(TCase %s %s %s %s %d %s %s %s %s %s %s %s %s %s %s %s)' % (
+        cbool(fixed), cbool(recheck), cbool(atomic), cbool(params[0]), params[1],
+        clist([top_term(o) for o in T]),
+        clist([cop_term(o) for o in C]),
+        clist([str(c) for c in r.schedule]),
+        clist([clist([lbl_term(l) for l in step]) for step in r.trace]),
+        status_term(r.status), cbool(r.pdone), buf,
+        cbool(r.flags[0]), cbool(r.flags[1]), cbool(r.flags[2]), cbool(r.flags[3]))
+
+
+def gen_history(rng, n):
+    """A random transport history (mostly well phased, with some events that cannot do anything in
+    the phase they occur in) and the Client parameters; returns (params, T, number of events sent)."""
+    reconn = rng.random() < 0.85
+    attempts = rng.choice([0, 0, 0, 2, 3])
+    T, phase, failed, nev, sent = [], 'up', 0, 0, 0
+    for _ in range(n):
+        x = rng.random()
+        if phase == 'up':
+            if x < 0.40:
+                op = TE(nev)
+                nev += 1
+                sent += 1
+            elif x < 0.75:
+                op = TL
+                phase, failed = ('down', 0) if reconn else ('over', 0)
+            elif x < 0.82:
+                op, phase = TC, 'over'
+            elif x < 0.89:
+                op, phase = TD, 'over'
+            else:
+                op = rng.choice([AF, AR, AK])           # no reconnect task is waiting: nothing happens
+        elif phase == 'down':
+            if x < 0.30:
+                op, phase = AK, 'up'
+            elif x < 0.88:
+                op = AF if x < 0.59 else AR
+                failed += 1
+                if attempts and failed >= attempts:
+                    phase = 'over'
+            else:
+                op = rng.choice([TE(nev), TL, TC, TD])  # the transport is down: nothing happens
+                if op[0] == 'TEvent':
+                    nev += 1
+        else:
+            if x < 0.5:
+                break
+            op = rng.choice([TE(nev), TL, AK, AF, TC])  # the connection is over: nothing happens
+            if op[0] == 'TEvent':
+                nev += 1
+        T.append(op)
+    return (reconn, attempts), T, sent
+
+
+def transport_scenarios(rng, thorough):
+    """(name, (reconnection, attempts), T, C, exhaustive-for-threads?)."""
+    out = [
+        ('t reconnect after failures', (True, 0), [TE(0), TL, AF, AR, AK, TE(1)], [R1, R1, R1], False),
+        ('t failures while waiting', (True, 0), [TL, AF, AR, AF, AK, TE(0)], [R0], True),
+        ('t event then outage', (True, 0), [TE(0), TL, AF], [R0], True),
+        ('t giveup', (True, 2), [TE(0), TL, AF, AR], [R1, R0], False),
+        ('t giveup1 refused', (True, 1), [TL, AR, AK, TE(0)], [R0], True),
+        ('t close', (True, 0), [TE(0), TC], [R0, R0], False),
+        ('t disc', (True, 0), [TE(0), TD, TE(1)], [R1, R0], False),
+        ('t loss no reconnection', (False, 0), [TE(0), TL, AK, TE(1)], [R0, R0], False),
+        ('t emit over reconnect', (True, 0), [TL, AF, AK], [EM, R1], False),
+        ('t emit giveup', (True, 1), [TL, AF], [EM], True),
+        ('t two losses', (True, 3), [TL, AF, AK, TE(0), TL, AR, AF, AK, TE(1), TC], [R0, R0, R1], False),
+        ('t ill phased', (True, 0), [TE(0), AK, TL, TE(1), TL, AF, TC, AK, TE(2)], [R1, R1, R1], False),
+    ]
+    for k in range(14 if thorough else 6):
+        params, T, sent = gen_history(rng, rng.randint(4, 9))
+        C = [rng.choice([R0, R1, R1]) for _ in range(min(3, sent + rng.randint(0, 1)))] or [R1]
+        if rng.random() < 0.3:
+            C.insert(rng.randrange(len(C) + 1), EM)
+        out.append(('t random %d' % k, params, T, C, False))
+    return out
 
 
 # ---------------------------------------------------------------------------------------
@@ -255,6 +379,56 @@ def _explore_scenario(task):
     return out
 
 
+def _explore_transport(task):
+    """Worker (own process): runs of one transport scenario on the real Client / AsyncClient stack."""
+    _, name, params, T, C, small, thorough, seed, fixed = task
+    from vt import common
+    rng = common.Rng(seed).sub('C19/' + name)
+    stack = X.make_stack(*params)
+    run_t = functools.partial(S.run_threads, stack=stack)
+    run_a = functools.partial(S.run_async, stack=stack)
+    P = [T]
+    out, errs = [], []
+
+    def add(atomic, r, kind):
+        sw = switches_in_window(r)
+        sample = None
+        if sw and not any(o[7] for o in out):
+            sample = {'mode': 'asyncio' if atomic else 'threads', 'scenario': name, 'transport history': T,
+                      'schedule': list(r.schedule),
+                      'trace': [[' '.join(map(str, l)) for l in st] for st in r.trace][:14], 'status': str(r.status)}
+        out.append((atomic, kind, tcase_term(fixed[atomic], atomic, params, T, C, r), list(r.schedule), r.status,
+                    r.error, sw, sample))
+        if r.error:
+            errs.append(r.error)
+            if len(errs) >= 8:
+                raise TooManyErrors()
+
+    try:
+        for r in S.explore(run_a, P, C, limit=(1500 if thorough else 400)):
+            add(True, r, 'transport exhaustive')
+        if small:
+            for r in S.explore(run_t, P, C, limit=(6000 if thorough else 1500)):
+                add(False, r, 'transport exhaustive')
+        else:
+            k = 3 if thorough else 2
+            for r in S.explore(run_t, P, C, limit=(2500 if thorough else 250), max_preempt=k):
+                add(False, r, 'transport preemptions<=%d' % k)
+            for _ in range(300 if thorough else 60):
+                add(False, S.random_walk(run_t, P, C, rng), 'transport random walk')
+        for _ in range(4):
+            add(False, S.random_walk(run_t, P, C, rng, noop_rate=0.25), 'transport walk with no-ops')
+            add(True, S.random_walk(run_a, P, C, rng, noop_rate=0.25), 'transport walk with no-ops')
+    except TooManyErrors:
+        pass
+    S.close_loop()
+    return out
+
+
+def _explore_any(task):
+    return _explore_transport(task) if task[0] == 'transport' else _explore_scenario(task)
+
+
 def collect(chk):
     import multiprocessing
     from vt import common
@@ -297,18 +471,28 @@ def collect(chk):
     S.close_loop()
 
     scs = scenarios(chk.thorough)
+    tscs = transport_scenarios(chk.rng.sub('C19/transport'), chk.thorough)
     tasks = [(name, P, C, small, chk.thorough, chk.rng.seed_value, fixed) for name, P, C, small in scs]
-    order = sorted(range(len(tasks)), key=lambda i: -_cost(scs[i], chk.thorough))
+    tasks += [('transport', name, params, T, C, small, chk.thorough, chk.rng.seed_value, fixed)
+              for name, params, T, C, small in tscs]
+    costs = [_cost(sc, chk.thorough) for sc in scs] + [len(T) * len(C) for _, _, T, C, _ in tscs]
+    order = sorted(range(len(tasks)), key=lambda i: -costs[i])
     ctx = multiprocessing.get_context('fork')
     with ctx.Pool(min(common.NCPU, len(tasks))) as pool:
-        results = pool.map(_explore_scenario, [tasks[i] for i in order], chunksize=1)
+        results = pool.map(_explore_any, [tasks[i] for i in order], chunksize=1)
     by_index = dict(zip(order, results))
     for i, (name, P, C, small) in enumerate(scs):
         for rec in by_index[i]:
             add(name, P, C, rec)
+    n_plain = len(cases)
+    for j, (name, params, T, C, small) in enumerate(tscs):
+        for rec in by_index[len(scs) + j]:
+            add(name, [T], C, rec)
+            meta[-1]['transport'] = {'reconnection': params[0], 'attempts': params[1]}
     if n_err[0]:
         chk.broken_obligation('%d runs ended in a driver error' % n_err[0])
-    return cases, meta, fixed
+    chk.extra['transport_cases'] = len(cases) - n_plain
+    return cases, meta, fixed, n_plain
 
 
 def _cost(sc, thorough):
@@ -320,7 +504,8 @@ def _cost(sc, thorough):
 def run(chk):
     chk.rule = ('scheduled runs of the real SimpleClient / AsyncSimpleClient; a case is non-trivial when at '
                 'least one producer step (handler access) is scheduled while a call of the application task '
-                'is in progress, i.e. inside the modelled critical window; distinct by (class, scenario, schedule)')
+                'is in progress, i.e. inside the modelled critical window; distinct by (class, scenario, schedule); '
+                'transport scenarios: the same over the real Client / AsyncClient and a fake engine.io transport')
     chk.trusted_base = [
         'Coq 8.16.1 kernel + vm_compute (case evaluation, refutation witnesses)',
         'hand model coq/Simple/SimpleClient.v (transcribed from simple_client.py / async_simple_client.py); '
@@ -332,16 +517,33 @@ def run(chk):
         'choice of atomic steps: one per access to input_buffer / input_event / connected_event / connected / '
         'client.namespaces (threads); between real suspension points (asyncio, CPython 3.12 wait_for does not '
         'suspend when the event is already set)',
-        'timers are a nondeterministic step enabled while the waiter is registered and not notified']
+        'timers are a nondeterministic step enabled while the waiter is registered and not notified',
+        'transport cases: hand function `dispatch` of coq/Simple/SimpleTransport.v (what the real Client turns a '
+        'transport history into: handler invocations on the simple client\'s namespace); its fidelity is what the '
+        'transport correspondence samples',
+        'harness/drivers/sched_simple_eio.py: the fake engine.io client (contract of engineio 4.x client.py / '
+        'async_client.py as in drivers/fake_eio_client.py; a CONNECT packet is answered at once), the instrumented '
+        '`namespaces` attribute and emit() of the real Client subclass (a change of "\'/\' in namespaces" is one '
+        'access), the wrappers logging the return of a handler invocation, the stepping of the reconnect task '
+        '(one back-off wait per scripted attempt: helper thread acting for the producer task / coroutine stepped '
+        'by hand)']
     chk.assumptions = [
         'one application thread/task calls receive()/emit()/call() (the classes are documented as not thread safe)',
         'the wrapped Client invokes the four handlers as client.py does (`lifecycle`) for the refutation '
         'witnesses; the positive theorems hold for arbitrary handler scripts on any number of producers',
-        'SimpleClient.disconnect() by the application itself is not modelled (same thread as receive())']
+        'SimpleClient.disconnect() by the application itself is not modelled (same thread as receive())',
+        'transport cases: one namespace, the server never emits an event named like a lifecycle notification, the '
+        'handlers the Client invokes for one connection run one after the other (reader thread, then reconnect '
+        'task, then the next reader thread): one producer']
     chk.prove(targets=['Check/C19Check.v'])
 
-    cases, meta, fixed = collect(chk)
-    codes, errors = coqio.eval_cases('c19', IMPORTS, DEFS, 'c19case', cases, 'c19_eval', shard=1500)
+    cases, meta, fixed, n_plain = collect(chk)
+    codes, errors = coqio.eval_cases('c19', IMPORTS, DEFS, 'c19case', cases[:n_plain], 'c19_eval', shard=1500)
+    # the transport cases (real Client / AsyncClient below the simple client) have their own case type
+    tcodes, terrors = coqio.eval_cases('c19t', IMPORTS, DEFS, 'c19tcase', cases[n_plain:], 'c19t_eval', shard=1500)
+    codes = dict(codes)
+    codes.update({n_plain + i: c for i, c in tcodes.items()})
+    errors = list(errors) + list(terrors)
     chk.traces_validated = len(cases)
     for e in errors:
         chk.broken_obligation('case evaluation failed: ' + e)
@@ -387,6 +589,8 @@ def run(chk):
         replay = {'mode': m['mode'], 'P': m['P'], 'C': m['C'], 'schedule': m['schedule'],
                   'scenario': m['scenario'], 'case': cases[idx], 'seen_in': modes,
                   'fixed': fixed[m['mode'] == 'asyncio']}
+        if 'transport' in m:
+            replay['transport'] = m['transport']
         chk.violation(sig, '%s (minimal schedule found: %s, %s; seen in: %s)' % (
             what, m['mode'], m['schedule'], ', '.join(modes)), replay, no_input=(sig == 'c19-correspondence'))
 
@@ -408,20 +612,31 @@ def replay(chk, data):
         return 1
     atomic = rp['mode'] == 'asyncio'
     runner = S.run_async if atomic else S.run_threads
-    P = [[tuple(o[:2]) + ((list(o[2]),) if len(o) > 2 else ()) if o[0] == 'Event' else tuple(o) for o in scr]
-         for scr in rp['P']]
+    P = [[tuple(o[:2]) + ((list(o[2]),) if len(o) > 2 else ()) if o[0] in ('Event', 'TEvent') else tuple(o)
+          for o in scr] for scr in rp['P']]
     C = [tuple(o) for o in rp['C']]
     probed = probe_variant(runner)
     fixed = VARIANT
-    r = runner(P, C, rp['schedule'])
+    tparams = None
+    if 'transport' in rp:
+        tparams = (bool(rp['transport']['reconnection']), int(rp['transport']['attempts']))
+        print('transport history (real Client / AsyncClient over a fake engine.io transport), '
+              'reconnection=%s reconnection_attempts=%d:\n  %s' % (tparams[0], tparams[1], P[0]))
+        r = runner(P, C, rp['schedule'], stack=X.make_stack(*tparams))
+    else:
+        r = runner(P, C, rp['schedule'])
     S.close_loop()
     print('mode=%s (final_wakes_input, recheck_before_raise): model %s, source probed %s' % (rp['mode'], fixed, probed))
     for ch, labels in zip(r.schedule, r.trace):
         print('  choice %d: %s' % (ch, labels))
     print('  final: status=%s producers_done=%s buffer=%s flags(iev,cev,conn,nsup)=%s' % (
         r.status, r.pdone, r.buf, r.flags))
-    case = case_term(fixed, atomic, P, C, r)
-    rc, out = coqio.eval_print('c19_replay', IMPORTS, DEFS, ['c19_eval %s' % case, 'c19_explain %s' % case])
+    if tparams is not None:
+        case = tcase_term(fixed, atomic, tparams, P[0], C, r)
+        rc, out = coqio.eval_print('c19_replay', IMPORTS, DEFS, ['c19t_eval %s' % case, 'c19t_explain %s' % case])
+    else:
+        case = case_term(fixed, atomic, P, C, r)
+        rc, out = coqio.eval_print('c19_replay', IMPORTS, DEFS, ['c19_eval %s' % case, 'c19_explain %s' % case])
     print(out)
     first = out.split('\n')[0] if out else ''
     code = int(first.split('=')[1].split(':')[0].strip().rstrip('%nat')) if '=' in first else -1
